@@ -34,7 +34,12 @@ let check_history (b : block) : verdict list =
           if toks = ["0"] then out := Diff ("clean", Printf.sprintf "after [%s] markers/md are not reset" !cur) :: !out
         | _ -> ()) b.lines;
     bump_by "history_requests" !n_ops;
-    match List.rev !out with [] -> [Ok] | l -> [List.hd l]
+    (* one verdict per block: the first oracle violation if there is one, else the first difference *)
+    let l = List.rev !out in
+    match List.filter (function Viol _ -> true | _ -> false) l, l with
+    | v :: _, _ -> [v]
+    | [], [] -> [Ok]
+    | [], d :: _ -> [d]
 
 (* C16X: two different models paged alternately in one process, same assumptions.
    ORACLE (truth tables only): the pages of either model, taken on their own, must be what C06 says
